@@ -41,9 +41,10 @@ def _before(inputs):
 
 
 # ---- objects built from caller-owned arrays (so that the arrays can be checked afterwards)
-def _net_inputs(directed=False):
+def _net_inputs(directed=False, token=1, cls=None):
     from pyunicorn.core import Network
-    A = V(families.ADJ[directed][1])
+    Network = cls or Network
+    A = V(families.ADJ[directed][token])
     w = V(families.WEIGHTS[1])
     la = V(families.link_attr(1))
     net = Network(adjacency=A, directed=directed, node_weights=w, silence_level=3)
@@ -130,6 +131,11 @@ def _es_calls(obj):
     return calls
 
 
+def _inter_cls():
+    from pyunicorn.core import InteractingNetworks
+    return InteractingNetworks
+
+
 class Target:
     """One class under test: how to build it from caller arrays and what to query."""
 
@@ -174,6 +180,12 @@ TARGETS = {
                       _fam_calls("network", {"A": 1, "W": 1, "LA": 1})),
     "dirnetwork": Target("dirnetwork", lambda: _net_inputs(True), _fam_names("dirnetwork"),
                          _fam_calls("dirnetwork", {"A": 1, "W": 1, "LA": 1})),
+    "network_disc": Target("network_disc", lambda: _net_inputs(False, 2), _fam_names("network"),
+                           _fam_calls("network", {"A": 2, "W": 1, "LA": 1})),
+    "interacting": Target("interacting", lambda: _net_inputs(False, 1, _inter_cls()), _fam_names("interacting"),
+                          _fam_calls("interacting", {"A": 1, "W": 1, "LA": 1})),
+    "interacting_disc": Target("interacting_disc", lambda: _net_inputs(False, 2, _inter_cls()),
+                               _fam_names("interacting"), _fam_calls("interacting", {"A": 2, "W": 1, "LA": 1})),
     "rp": Target("rp", lambda: _rp_inputs("RecurrencePlot"), _fam_names("rp"), _fam_calls("rp", {})),
     "rn": Target("rn", lambda: _rp_inputs("RecurrenceNetwork"), _fam_names("rn"), _fam_calls("rn", {})),
     "crp": Target("crp", lambda: _rp_inputs("CrossRecurrencePlot"), _fam_names("crp"), _fam_calls("crp", {})),
@@ -384,7 +396,9 @@ def _rebuild(target, inputs):
     from pyunicorn.core import Network, ResNetwork
     from pyunicorn.climate import ClimateNetwork
     kw = dict(silence_level=3)
-    if target in ("network", "dirnetwork"):
+    if target in ("network", "dirnetwork", "network_disc", "interacting", "interacting_disc"):
+        if target.startswith("interacting"):
+            Network = _inter_cls()
         net = Network(adjacency=inputs["adjacency"], directed=(target == "dirnetwork"),
                       node_weights=inputs["node_weights"], **kw)
         net.set_link_attribute("w", inputs["link_attribute"])
@@ -485,7 +499,7 @@ def _nontrivial(rec):
 
 
 QUICK_TARGETS = ["network", "rp", "rn", "jrp", "surrogates", "climate", "resnetwork", "tsonis", "mutualinfo",
-                 "spearman", "isrn", "eventseries"]
+                 "spearman", "isrn", "eventseries", "interacting_disc"]
 
 
 def main(ctx):
